@@ -218,6 +218,17 @@ Proof.
          | intros Hstrict; specialize (Hfl Hstrict); rewrite ?Eend in *; first [reflexivity | exact Hfl] | exact NR ]).
 Qed.
 
+Lemma frame_refines_strict st sp off data fin :
+  Inv true st sp ->
+  let '(o, st') := handle_frame st off data fin in
+  let '(o', sp') := spec_frame sp off data fin in
+  o = o' /\ Inv true st' sp'.
+Proof.
+  intros I. pose proof (frame_refines true st sp off data fin I) as H.
+  destruct (handle_frame st off data fin) as [o st']. destruct (spec_frame sp off data fin) as [o' sp'].
+  destruct H as (_ & Ho & I'). split; [exact (Ho eq_refl)|exact I'].
+Qed.
+
 Lemma inv_weaken strict st sp : Inv strict st sp -> Inv false st sp.
 Proof.
   intros I. constructor; try discriminate.
